@@ -407,6 +407,10 @@ class CallMixin(object):
                 return self.ok(st, m['groups'][gi])
             if kind == 'extern':
                 q = fn.py[1]
+                if q in self.spec.handlers:
+                    return self.spec.handlers[q](self, st, args, kw, node)
+                if q == 'functools:partial':
+                    return self.ok(st, mk_py(('partial', args[0], list(args[1:]), dict(kw))))
                 if q in ('re:match', 're:fullmatch'):
                     return self.ext_re_match(st, q.split(':')[1], args, kw, node)
                 if q in self.spec.contracts:
@@ -418,6 +422,10 @@ class CallMixin(object):
                 kk.update(kw)
                 return self.apply(st, f2, list(a2) + list(args), kk, node, star)
             self.oos('call of %r' % (fn.py[:2],), node)
+        if isinstance(fn.ty, TRef):
+            c = self.find_method_contract(fn.ty.cls, '__call__')
+            if c is not None:
+                return self.call_contract(st, c, [fn] + list(args), kw, node, recv=fn, star=star)
         if fn.ty == VAL or isinstance(fn.ty, TRef):
             # an unknown callable (hook, callback, stream object): contract '$callable'
             return self.call_unknown(st, fn, args, kw, node)
@@ -1030,7 +1038,7 @@ class CallMixin(object):
                      'NoneType': Val.is_VNone(z)}
             if cname in table:
                 return table[cname]
-            f = ufun('inst_' + cname, z3.IntSort(), z3.BoolSort())
+            f = ufun('u_inst_' + cname, z3.IntSort(), z3.BoolSort())
             return z3.And(Val.is_VRef(z), f(Val.vx(z)))
         static = {INT: ('int',), BOOL: ('int', 'bool'), REAL: ('float',), STR: ('str',),
                   BYTES: ('bytes',), NONE: ('NoneType',)}
@@ -1050,7 +1058,7 @@ class CallMixin(object):
             mro = self.spec.mro(ty.cls)
             if cname in mro:
                 return v.z != 0
-            f = ufun('inst_' + cname, z3.IntSort(), z3.BoolSort())
+            f = ufun('u_inst_' + cname, z3.IntSort(), z3.BoolSort())
             return z3.And(v.z != 0, f(v.z))
         if ty == PY:
             return F
@@ -1074,6 +1082,11 @@ class CallMixin(object):
                 res = hasattr(m, attr)
                 self.notes.append('A-POSIX: hasattr(%s, %r) folded to %s' % (v.py[1], attr, res))
                 out += self.ok(r.st, mk_bool(res))
+            elif isinstance(v.ty, TRef) and any(
+                    attr in self.spec.classes[c].hasattr_fields for c in self.spec.mro(v.ty.cls)):
+                fld = [self.spec.classes[c].hasattr_fields[attr] for c in self.spec.mro(v.ty.cls)
+                       if attr in self.spec.classes[c].hasattr_fields][0]
+                out += self.ok(r.st, SV(BOOL, z3.And(v.z != 0, self.read_field(r.st, v.z, v.ty.cls, fld).z)))
             elif isinstance(v.ty, TRef):
                 known = (self.spec.field_owner(v.ty.cls, attr) is not None or
                          self.find_method_contract(v.ty.cls, attr) is not None)
@@ -1083,7 +1096,7 @@ class CallMixin(object):
                 elif getattr(decl, 'closed', True):
                     out += self.ok(r.st, mk_bool(False))
             elif v.ty == VAL:
-                f = ufun('hasattr_' + attr, z3.IntSort(), z3.BoolSort())
+                f = ufun('u_hasattr_' + attr, z3.IntSort(), z3.BoolSort())
                 if attr in ('close', 'open', 'fileno', 'arbiter', '_exclusive_running_command',
                             'exc_info'):
                     out += self.ok(r.st, SV(BOOL, z3.And(Val.is_VRef(v.z), f(Val.vx(v.z)))))
